@@ -1236,6 +1236,25 @@ def r18j(P, R):
                            "that document carries the index of whichever file was registered last, so diagnostics name the wrong file" % f0.path, loc=f0.loc())
     if not n:
         R.undecided("R18-h", "file-index-at-parse", "no parse call found in the CLI")
+    # ... and the same for a failed parse: the error a parse entry point returns already carries its position (with the file index
+    # captured while that file was current).  An error that only keeps line/column has its file filled in whenever it is converted,
+    # which may be after other files were registered.
+    for name in ("parse_operation_document", "parse_type_system_document"):
+        pf = P.fn("nitrogql_parser::parser::" + name, required=False) or P.fn("nitrogql_parser::" + name, required=False)
+        if pf is None:
+            R.undecided("R18-h", "parse-error-carries-file:" + name, "parser entry point not found")
+            continue
+        out = pf.sig_output or ""
+        errs = [a for ap, a in P.adts.items() if ap.startswith("nitrogql_parser::") and ap in out.split(",", 1)[-1]]
+        if not out.startswith("core::result::Result<") or len(errs) != 1 or errs[0].kind != "Struct":
+            R.undecided("R18-h", "parse-error-carries-file:" + name, "the error type of %s is not a struct of the parser crate" % pf.path, loc=pf.loc())
+            continue
+        ft = errs[0].field_types()
+        carries = any(t.endswith("::Pos") or "::Pos>" in t or "::Pos," in t for t in ft.values()) or any(n_ in ("file", "file_index", "file_idx") for n_ in ft)
+        R.check("R18-h", "parse-error-carries-file:" + name, carries, "the parse error carries its Pos (file index captured at parse time)",
+                "%s returns `%s`, which keeps no position with a file index (fields: %s): the file of a syntax error is only filled in when the error is converted, "
+                "from the thread-local current file of that later moment - a diagnostic can name another file than the one that failed to parse"
+                % (pf.path, errs[0].path.split("::")[-1], ", ".join("%s: %s" % (k, v.split("::")[-1]) for k, v in sorted(ft.items()))), loc=pf.loc())
 
 
 def r18pc(P, R):
